@@ -143,6 +143,52 @@ class Crate:
         out.append(lines[sp["hi_line"] - 1][:sp["hi_col"]])
         return "\n".join(out)
 
+    def declared_bodyless(self, d):
+        """True when the function was written WITHOUT a body (`fn f(..) -> T;`) and a foreign attribute
+        macro on it supplied the body after entrait had passed the declaration through: entrait saw a
+        body-less declaration, which C08 excludes from the trait."""
+        foreign = [e for e in d.get("expn", []) if e.get("kind") == "Attr" and not is_entrait_macro(e)]
+        if not foreign or not any(is_entrait_macro(e) for e in d["expn"]):
+            return False
+        cs = foreign[-1]["call_site"]
+        lines = self.source(cs["file"])
+        text = lines[cs["lo_line"] - 1][cs["lo_col"]:] + "\n" + "\n".join(lines[cs["lo_line"]:])
+        from .expq import tokenize
+        try:
+            toks = tokenize(text)
+        except Exception:
+            return False
+        depth = 0
+        i = 0
+        while i < len(toks):
+            t = toks[i].text
+            if depth == 0 and t == "#":
+                # skip the attribute's bracket group
+                j = i + 1
+                if j < len(toks) and toks[j].text == "!":
+                    j += 1
+                dd = 0
+                while j < len(toks):
+                    if toks[j].text == "[":
+                        dd += 1
+                    elif toks[j].text == "]":
+                        dd -= 1
+                        if dd == 0:
+                            break
+                    j += 1
+                i = j + 1
+                continue
+            if t in "([":
+                depth += 1
+            elif t in ")]":
+                depth -= 1
+            elif depth == 0 and t == "{":
+                return False
+            elif depth == 0 and t == ";":
+                return True
+            i += 1
+        return False
+
     def item_kind_after(self, sp):
         """'fn' | 'mod' | 'trait' | 'impl': kind of the item an attribute (given by its span) annotates."""
         lines = self.source(sp["file"])
